@@ -63,7 +63,7 @@ def job(j):
         for _ in range(2):
             plans.append(("targets", rnd.sample(cols, min(size, len(cols))), {}))
     # a target that creates an automatic group sum of an individual-level node
-    indiv = [c for c in cols if c.endswith("_m") and f"{c}_hh" not in cols]
+    indiv = [c for c in cols if c.endswith("_m") and f"{c}_hh" not in cols and f"{c}_hh" not in df.columns]   # the sum must be a NEW node, not an input column
     if indiv:
         t = rnd.choice(indiv)
         plans.append(("same", [t, f"{t}_hh"] + rnd.sample(cols, 3), {}))
